@@ -50,7 +50,7 @@ def stopArrGen (arr : List Nat) : Nat := arr.foldl max 0 + 1
 def ctrlStepGen {R C : Type} (dc : Nat → Nat → C → R × C) (stop : R → Nat)
     (st : Nat × C × List R) (m : Nat) : Nat × C × List R :=
   let rc := dc m st.1 st.2.1
-  (stop rc.1, rc.2, st.2.2 ++ [rc.1])
+  (max st.1 (stop rc.1), rc.2, st.2.2 ++ [rc.1])
 
 /-- per-member accessors used inside the member loops of `transcribe()`: (accessor, the member
     index is the loop's member) -/
